@@ -12,7 +12,7 @@ use std::process::{Command, Stdio};
 use std::sync::atomic::{AtomicU64, AtomicUsize, Ordering};
 use std::sync::Mutex;
 use std::time::Instant;
-use vcommon::{hash_str, load_known_findings, match_known, KnownFinding, Tier, Violation, VERIF_ROOT};
+use vcommon::{hash_str, match_known, KnownFinding, Tier, Violation, VERIF_ROOT};
 
 static DIR_COUNTER: AtomicU64 = AtomicU64::new(0);
 static WORKER_STARTS: AtomicU64 = AtomicU64::new(0);
@@ -23,6 +23,22 @@ pub fn threads() -> usize {
         .and_then(|s| s.parse().ok())
         .unwrap_or_else(|| std::thread::available_parallelism().map(|n| n.get()).unwrap_or(8))
         .clamp(1, 16)
+}
+
+/// /verif/known_findings.json (read-only; missing = empty). EXPSIM_KNOWN_FINDINGS
+/// names another file - used only to test the known-finding path without
+/// touching the real file.
+fn load_known_findings() -> Vec<KnownFinding> {
+    match std::env::var("EXPSIM_KNOWN_FINDINGS") {
+        Ok(p) => match std::fs::read_to_string(&p).map_err(|e| e.to_string()).and_then(|s| serde_json::from_str(&s).map_err(|e| e.to_string())) {
+            Ok(v) => v,
+            Err(e) => {
+                eprintln!("HARNESS-ERROR: cannot read {p}: {e}");
+                std::process::exit(2);
+            }
+        },
+        Err(_) => vcommon::load_known_findings(),
+    }
 }
 
 pub fn base_seed() -> u64 {
@@ -523,7 +539,13 @@ pub fn conclude(plan: &CheckPlan, scenarios: &BTreeMap<u64, Scenario>, out: &Bat
 pub fn check_c19(tier: Tier) -> i32 {
     let t0 = Instant::now();
     let list = c19_scenarios(base_seed(), tier);
-    let per_world = list.iter().take_while(|s| matches!(&s.body, Body::C19(b) if Some(&b.world) == list.first().and_then(|f| match &f.body { Body::C19(x) => Some(&x.world), _ => None }))).count().max(1);
+    let world_of = |s: &Scenario| match &s.body {
+        Body::C19(b) => Some(b.world.clone()),
+        _ => None,
+    };
+    let first = list.first().and_then(world_of);
+    // one chunk = the scenarios of one simulated network (it is simulated once per worker)
+    let per_world = list.iter().take_while(|s| world_of(s) == first).count().max(1);
     let out = run_batch(&list, per_world, threads());
     let map: BTreeMap<u64, Scenario> = list.iter().map(|s| (s.id, s.clone())).collect();
     let mut errs = Vec::new();
